@@ -62,6 +62,13 @@ Lemma skel_EtcdKVGet_ok : skel_EtcdKVGet =
   [Call "Get(ctx, key, opts)"; IfE "err != nil" [Ret] []; Ret].
 Proof. reflexivity. Qed.
 
+(* the time differences of the oracle are differences of WALL-CLOCK readings (UnixNano), never time.Time.Sub (which silently
+   uses the monotonic readings two values may carry): the model's clock inputs are wall-clock values *)
+Lemma time_differences_ok :
+  src_SubRealTimeByWallClock = "{ return time.Duration(after.UnixNano() - before.UnixNano()) }" /\
+  src_SubTSOPhysicalByWallClock = "{ return after.UnixNano()/int64(time.Millisecond) - before.UnixNano()/int64(time.Millisecond) }".
+Proof. split; reflexivity. Qed.
+
 Lemma skel_updateAllocator_ok : skel_updateAllocator =
   [SwitchE [[Call "Reset"; Ret]; []]; Call "Check"; IfE "!ag.leadership.Check()" [Ret] []; Call "UpdateTSO"; IfE "err != nil" [Call "ResetAllocatorGroup"; Ret] []].
 Proof. reflexivity. Qed.
